@@ -244,6 +244,57 @@ func main() {
 		}
 	}
 	red.Distinct = len(redSeen)
+	// ---------- a binding inside a path expression is evaluated as a VALUE ------------------------
+	// `path(SRC as PATTERN | B)`: the source and the destructuring steps of the pattern leave no
+	// trace in the path; with SRC = `.` and pattern variables B does not use, the paths are those of
+	// B — the same binding performed OUTSIDE the path expression gives the reference (same
+	// multiplicity, same destructuring errors)
+	{
+		bo := ctx.NewOracle("bind-in-path", "`try [path(. as P | B)] catch \"E\"` against `try [(. as P | 1) as $one | path(B)] catch \"E\"`, and the same with `(…) |= 1` / `del(…)`, for 12 patterns P (plain, array, object, nested, `?//` lists) × generated path expressions B × inputs of every shape: the implementation against itself; distinct = distinct (P, B, input)")
+		pats := []string{"$v", "[$v]", "[$v, $w]", "{a: $v}", "{$a}", "{a: [$v]}", "[$v] ?// $v", "{a: $v} ?// [$v] ?// $v", "{$a, b: [$w]}", "[[$v]]", "{\"a\": $v, \"b\": $w}", "{(\"a\", \"b\"): $v}"}
+		seenB := map[string]bool{}
+		for i := 0; i < ctx.N(2500, 40000); i++ {
+			var in any
+			if r.Chance(1, 2) {
+				in = common.Pick(r, inputs)
+			} else {
+				in = common.RandValue(r, common.GenOpts{MaxDepth: 3, MaxWidth: 3, SmallKeys: true}, 0)
+			}
+			b, _ := jqgen.NewTyped(r, r.Range(0, 2)).PathFor(jqgen.TypeOf(in))
+			if strings.Contains(b, " as ") {
+				continue // B must not bind the same names itself
+			}
+			pat := common.Pick(r, pats)
+			wrapL, wrapR := "[path(%s)]", "[%s path(%s)]"
+			switch r.Intn(4) {
+			case 0:
+				wrapL, wrapR = "(%s) |= 1", "%s ((%s) |= 1)"
+			case 1:
+				wrapL, wrapR = "del(%s)", "%s del(%s)"
+			}
+			bind := "(. as " + pat + " | 1) as $one | "
+			lhs := "try (" + fmt.Sprintf(wrapL, ". as "+pat+" | "+b) + ") catch \"E\""
+			// an update or deletion through k copies of the same paths is the update through them once
+			rhs := "try (([. as " + pat + " | 1] | length) as $n | if $n == 0 then . else " + fmt.Sprintf(wrapL, b) + " end) catch \"E\""
+			if strings.HasPrefix(wrapR, "[") {
+				rhs = "try [" + bind + "path(" + b + ")] catch \"E\""
+			}
+			oa := common.RunSrc(lhs, common.DeepCopy(in), budget, maxOuts)
+			ob := common.RunSrc(rhs, common.DeepCopy(in), budget, maxOuts)
+			if oa.Budget || ob.Budget || oa.ParseErr != nil || ob.ParseErr != nil || oa.CompErr != nil || ob.CompErr != nil {
+				bo.Distribution["skipped"]++
+				continue
+			}
+			bo.Cases++
+			seenB[pat+"|"+b+"|"+common.Canon(in)] = true
+			bo.Distribution["pattern:"+pat]++
+			if ca, cb := common.CanonOutcome(oa), common.CanonOutcome(ob); ca != cb {
+				ctx.Violate("bind-in-path:"+pat+":"+b+":"+common.Canon(in), fmt.Sprintf("`%s` on %s gives %s; with the binding performed outside the path expression (`%s`) it gives %s", lhs, common.Canon(in), ca, rhs, cb),
+					map[string]any{"query": lhs, "reference": rhs, "input": common.Canon(in), "observed": ca, "expected": cb, "cmd": "gojq -c '" + lhs + "'"})
+			}
+		}
+		bo.Distinct = len(seenB)
+	}
 	c02oracle.Run(ctx)
 	_ = fmt.Sprint
 	ctx.Finish()
